@@ -71,6 +71,14 @@ def same_relation(A, a, b):
     return A.equal(a.expr, b.expr)
 
 
+def canon(A, rf):
+    """an expression as a value that does not depend on the order in which its algebra met the atoms (two runs of the
+    interpreter on two configurations number their atoms differently; the printed form follows that numbering)"""
+    def poly(p_):
+        return frozenset((tuple(sorted((A.atoms[a].name, str(e)) for a, e in m)), c) for m, c in p_.items())
+    return (poly(rf.num), frozenset((poly(A.factors[f]), m) for f, m in rf.den))
+
+
 class RaisesForValidConfig(AnalysisError):
     pass
 
@@ -246,7 +254,7 @@ def transpose(check):
                         t = transpose_relation(Da, r)
                         # the two runs have their own algebras: compare through the printed normal form of the same atoms
                         if not any((t.array, t.fam, t.kind) == (o.array, o.fam, o.kind) and dom_key(Da.eng.alg, t) == dom_key(Db.eng.alg, o)
-                                   and Da.eng.alg.show(t.expr, 4000) == Db.eng.alg.show(o.expr, 4000) for o in rb):
+                                   and canon(Da.eng.alg, t.expr) == canon(Db.eng.alg, o.expr) for o in rb):
                             missing.append(r)
                     construct = "modeldisc.fvm2dcart.%s [%s, %s, %s]" % (st_name, recon, nm, "vector" if shapes == (2,) else "scalar")
                     if missing:
